@@ -22,10 +22,19 @@ class HelpResolver(DefaultResolver):
     def resolve(
         self, args, application
     ):  # type: (RawArgs, Application) -> ResolvedCommand
-        if args.tokens and args.tokens[0] == self._help_command_name:
+        skip_help_command_name = (
+            args.tokens and args.tokens[0] == self._help_command_name
+        )
+
+        if skip_help_command_name:
             del args.tokens[0]
 
-        return super(HelpResolver, self).resolve(args, application)
+        try:
+            return super(HelpResolver, self).resolve(args, application)
+        finally:
+            if skip_help_command_name:
+                # The raw arguments belong to the caller
+                args.tokens.insert(0, self._help_command_name)
 
     def create_resolved_command(
         self, result
